@@ -96,7 +96,7 @@ CHECKS["C01"] = dict(
     text="Per scheme, a code-shaped Coq model of the comparison (parsing of the version text, shortcuts, loops) and a refinement theorem: on the shape every accepted version "
          "has, the comparison the code computes equals a lexicographic order on an explicit key (padded token lists for deb, components/letter/suffix-chain/revision for "
          "ebuild and alpine, a five-field key for legacy openssl, the string order for generic), which is a total preorder; all five laws of the property and the "
-         "order-independence of sorting are proved once for any total preorder. Schemes with a theorem: generic, legacy openssl, ebuild, alpine, deb, the semver family (semver, nginx, golang, composer), gem, rpm, alpm (within a pkgrel class), openssl, pypi and nuget (on every constructed version); maven and conan are modelled and compared without an order theorem (maven's order is the listed finding; conan's is not transitive across number/word items, the sub-domain the property excludes). "
+         "order-independence of sorting are proved once for any total preorder. Schemes with a theorem: generic, legacy openssl, ebuild, alpine, deb, the semver family (semver, nginx, golang, composer), gem, rpm, alpm (within a pkgrel class), openssl, pypi and nuget (on every constructed version); conan has a theorem on plain releases (numeric items, no pre-release or build part); maven and the other conan versions are modelled and compared without an order theorem (maven's order is the listed finding; conan's is not transitive across number/word items, the sub-domain the property excludes). "
          "For every version class, modelled or not, the laws are also evaluated on the implementation over triples of near-equal versions (every ordered triple of sliding windows "
          "of the near-pair stream) and random triples, with the two excluded sub-domains filtered; modelled classes are additionally compared with their model (operators, key order, "
          "theorem domain).",
